@@ -567,54 +567,68 @@ def _phased_xz_qasm(ctx, repo):
 
 
 def _conditional_lines(ctx, repo):
-    """C19.g - every statement a classically controlled operation emits carries the condition."""
-    ctx.decided.append('C19.g ClassicallyControlledOperation._qasm_: each statement of the sub-operation\'s export is guarded by the condition (interpreted for exports of 0, 1 and 3 statements); '
-                       'an `if` guards one statement only')
-    ctx.rule('C19.g', 'condition on every statement: interpreting ClassicallyControlledOperation._qasm_ with one condition c and a sub-operation whose export has k = 0, 1, 3 statements, the result '
-             'has exactly k non-empty lines and each of them starts with `if (c) `', floor=3, style='FDX')
-    ci = repo.cls('cirq.ops.classically_controlled_operation.ClassicallyControlledOperation')
-    fn = repo.method(ci.qual, '_qasm_')
+    """C19.g - every statement a classically controlled operation emits carries the condition (all sibling implementations)."""
+    ctx.decided.append('C19.g every class of cirq.ops whose _qasm_ writes an `if (...)` prefix (ClassicallyControlledOperation, If): each statement of the sub-operation\'s export is guarded by '
+                       'the condition (interpreted for exports of 0, 1 and 3 statements); an `if` guards one statement only')
+    ctx.rule('C19.g', 'condition on every statement: interpreting the _qasm_ of each such class with one condition c and a sub-operation whose export has k = 0, 1, 3 statements, the result '
+             'has exactly k non-empty lines and each of them starts with `if (c) `', floor=6, style='FDX')
+    targets = []
+    for ci in sorted(repo.classes.values(), key=lambda c: c.qual):
+        if not ci.qual.startswith('cirq.ops.') or ci.mod.rel.endswith('_test.py'):
+            continue
+        fn = ci.methods.get('_qasm_')
+        if fn is None:
+            continue
+        lits = [c.value for c in ast.walk(fn) if isinstance(c, ast.Constant) and isinstance(c.value, str)]
+        if any(l.lstrip().startswith('if (') for l in lits):
+            targets.append((ci, fn))
+    if len(targets) < 2:
+        raise AnalysisError(f'C19.g: expected ClassicallyControlledOperation and If, found {[c.name for c, _ in targets]}')
 
     class A:
         version = '2.0'
 
         def validate_version(self, *a):
             return None
-    for k, sub in ((0, ''), (1, 'x q[0];\n'), (3, 'h q[2];\nccx q[0],q[1],q[2];\nh q[2];\n')):
-        def call_hook(call, it, sub=sub):
-            s = ast.unparse(call.func)
-            if s.endswith('qasm'):
-                arg0 = ast.unparse(call.args[0]) if call.args else ''
-                return sub if 'sub_operation' in arg0 else 'c'
-            return NotImplemented
-
-        def attr_hook(node, it):
-            if isinstance(node.value, ast.Name) and node.value.id == 'self':
-                if node.attr in ('_conditions', 'classical_controls'):
-                    return ('COND',)
-                if node.attr in ('_sub_operation',):
-                    return 'SUBOP'
-            try:
-                v = it.ev(node.value)
-            except fdx.Unsupported:
+    for ci, fn in targets:
+        for k, sub in ((0, ''), (1, 'x q[0];\n'), (3, 'h q[2];\nccx q[0],q[1],q[2];\nh q[2];\n')):
+            def call_hook(call, it, sub=sub):
+                s = ast.unparse(call.func)
+                if s.endswith('qasm'):
+                    arg0 = ast.unparse(call.args[0]) if call.args else ''
+                    return sub if 'sub_operation' in arg0 else 'c'
+                if s.endswith('QasmArgs'):
+                    return A()
                 return NotImplemented
-            if isinstance(v, A) and hasattr(v, node.attr):
-                return getattr(v, node.attr)
-            return NotImplemented
-        params = [a.arg for a in fn.args.args]
-        it = fdx.NumInterp({params[0]: 'SELF', params[1]: A()}, call_hook=call_hook, attr_hook=attr_hook)
-        it.builtins.update({'len': len, 'str': str})
-        try:
-            out = it.call(fn)
-        except (fdx.Unsupported, fdx.Raised) as ex:
-            raise AnalysisError(f'cannot interpret ClassicallyControlledOperation._qasm_: {ex}')
-        lines = [l for l in (out or '').splitlines() if l.strip()]
-        ok = len(lines) == k and all(l.startswith('if (c) ') for l in lines)
-        ctx.ob('C19.g', f'{ci.qual}._qasm_:statements={k}', ok, '' if ok else
-               f'a sub-operation exported as {k} statement(s) {sub!r} yields {out!r}: ' + ('statements after the first run unconditionally' if k > 1 else
-                                                                                          'a dangling `if` captures whatever statement follows' if k == 0 else 'the condition is lost'),
-               ci.mod.rel, fn.lineno)
 
+            def attr_hook(node, it):
+                if isinstance(node.value, ast.Name) and node.value.id == 'self':
+                    if node.attr in ('_conditions', 'classical_controls'):
+                        return ('COND',)
+                    if node.attr in ('_sub_operation',):
+                        return 'SUBOP'
+                try:
+                    v = it.ev(node.value)
+                except fdx.Unsupported:
+                    return NotImplemented
+                if isinstance(v, A) and hasattr(v, node.attr):
+                    return getattr(v, node.attr)
+                return NotImplemented
+            env = {}
+            for a in fn.args.args + fn.args.kwonlyargs:
+                env[a.arg] = 'SELF' if a.arg == 'self' else A() if a.arg == 'args' else None
+            it = fdx.NumInterp(env, call_hook=call_hook, attr_hook=attr_hook)
+            it.builtins.update({'len': len, 'str': str})
+            try:
+                out = it.call(fn)
+            except (fdx.Unsupported, fdx.Raised) as ex:
+                raise AnalysisError(f'cannot interpret {ci.name}._qasm_: {ex}')
+            lines = [l for l in (out or '').splitlines() if l.strip()]
+            ok = len(lines) == k and all(l.startswith('if (c) ') for l in lines)
+            ctx.ob('C19.g', f'{ci.qual}._qasm_:statements={k}', ok, '' if ok else
+                   f'a sub-operation exported as {k} statement(s) {sub!r} yields {out!r}: ' + ('statements after the first run unconditionally' if k > 1 else
+                                                                                              'a dangling `if` captures whatever statement follows' if k == 0 else 'the condition is lost'),
+                   ci.mod.rel, fn.lineno)
 
 def _sympy_condition_bits(ctx, repo):
     """C19.h - `key == constant` conditions compare the same bits in QASM as in Cirq."""
